@@ -206,7 +206,8 @@ class C07(PropBase):
     id = 'C07'
     rule = ('searches built from valid sids of every type: subsets of segments replaced by *, >, comma lists, aliases; contiguous spans collapsed '
             'into **; 0-2 filters (existing, deeper, foreign, optional, comma-valued, alias); malformed searches; non-trivial = unfolds to at least one '
-            'typed search or raises; distinct by search string')
+            'typed search or raises; distinct by search string; plus histories in one process: a "**" search followed (or preceded) by the '
+            'star-filled strings it stands for')
     partial_note = 'refinement pipeline = denotation proved for plain bodies and url-safe queries under unfold_conf_okb; outside those guards the denotation is the executable python oracle (independent of model and code)'
     def cases(self, rng, ctx, tier):
         v = gen.vocab_from_ctx(ctx)
@@ -224,6 +225,22 @@ class C07(PropBase):
             out.append(Case('extensions', [s], 'diag'))
             out.append(Case('or_op', [s], 'diag'))
             out.append(Case('expand', [s.replace(',', '')], 'diag'))
+        # histories in one process: a '**' search, then the star-filled strings it stands for (and the other way round): each answer
+        # is the denotation of its own string, whatever was unfolded before
+        depths = sorted(set(len(v.types[t]) for t in v.order))
+        for _ in range(n // 2):
+            t = v.any_type(rng)
+            segs = v.sid(t, rng).split('/')
+            i = rng.randrange(1, len(segs) + 1)
+            root = segs[:i]
+            tail = rng.choice(['', '', '/' + segs[-1]]) if i < len(segs) else ''
+            filled = ['/'.join(root) + '/*' * (d - i - (1 if tail else 0)) + tail for d in depths if d - i - (1 if tail else 0) >= 0]
+            steps = [['unfold', ['/'.join(root) + '/**' + tail, '0', '0']]] + [['unfold', [f, '0', '0']] for f in filled]
+            if rng.random() < 0.3:
+                steps = steps[1:] + steps[:1]
+            if rng.random() < 0.5:
+                steps = steps + steps[:2]
+            out.append(Case('seq', steps, 'history'))
         return out
     def compare(self, case, model, impl):
         if case.stream == 'diag':
@@ -232,6 +249,12 @@ class C07(PropBase):
             return None
         return 'unfold_search differs'
     def oracle(self, case, impl, ctx):
+        if case.op == 'seq':
+            for k, ((op, a), r) in enumerate(zip(case.args, impl)):
+                why = self.oracle(Case(op, a, 'structured'), r, ctx)
+                if why:
+                    return 'step %d of the history %r: %s' % (k, [x[1][0] for x in case.args], why)
+            return None
         if case.op != 'unfold':
             return None
         s = case.args[0]
@@ -272,10 +295,14 @@ class C07(PropBase):
             return 'unfold_search(%r): denotes %r, got %r' % (s, exp[:4], impl[1][:4])
         return None
     def nontrivial(self, case, impl):
+        if case.op == 'seq':
+            return case.args if any(r[0] == 'raise' or r[1] for r in impl) else None
         if case.op == 'unfold' and (impl[0] == 'raise' or impl[1]):
             return case.args
         return None
     def histogram_key(self, case, impl):
+        if case.op == 'seq':
+            return 'history:%d-steps' % len(case.args)
         if case.op != 'unfold':
             return 'diag:' + case.op
         if impl[0] == 'raise':
